@@ -660,7 +660,7 @@ def shape(spec: dict) -> str:
 # ------------------------------------------------------------------------------------------------
 
 def fam_direct(ctx: Ctx, env: Env, spec: dict) -> None:
-    """plan items: ["top", wi, limit|None, same_object?] | ["child", wi, key]"""
+    """plan items: ["top", wi, limit|None, same_object?] | ["child" | "child-fail", wi, key]"""
     env.set_children(spec["children"])
     for s in spec["scripts"]:
         env.new_top(s)
@@ -679,7 +679,9 @@ def fam_direct(ctx: Ctx, env: Env, spec: dict) -> None:
             inv = env.tops[item[1]]
             cid = env.launched(str(inv.workflow.workflow_id), item[2])
             if cid is not None:
-                run_inline(env, cid, item[2], None)
+                # "child-fail": the sub-task raises at once and ends FAILED - later executions of the caller still get
+                # this recorded invocation back (the launch record does not depend on how the sub-task fared)
+                run_inline(env, cid, item[2], 0 if item[0] == "child-fail" else None)
 
 
 def gen_direct(rng, quick: bool) -> dict:  # type: ignore[no-untyped-def]
@@ -694,7 +696,7 @@ def gen_direct(rng, quick: bool) -> dict:  # type: ignore[no-untyped-def]
             plan.append(["top", wi, lim, rng.random() < 0.3])
         for k in set(sub_keys(scripts[wi])):
             if rng.random() < 0.6:
-                plan.append(["child", wi, k])
+                plan.append(["child-fail" if rng.random() < 0.35 else "child", wi, k])
     rng.shuffle(plan)
     # a child can only run after some attempt of its parent: keep it, it is skipped when not launched yet
     return {"family": "direct", "children": ch, "scripts": scripts, "plan": plan, "frame": rng.random() < 0.5}
@@ -1077,8 +1079,46 @@ TIE_NAMES = {
 }
 
 
+def generator_across_processes(ctx: Ctx) -> None:
+    """The n-th random / uuid of a workflow as GENERATED (nothing recorded yet) by different process images - the case of a
+    recovery re-run in another process that reaches the n-th operation before the original execution has recorded it.  The
+    model's generator g(workflow, op, sequence) is a function; so must the real one be, in every interpreter."""
+    import uuid as _uuid
+
+    wids = [str(_uuid.UUID(int=ctx.rng.getrandbits(128))) for _ in range(2 if ctx.quick else 6)]
+    n = 3
+    envv = dict(os.environ)
+    envv["PYTHONPATH"] = os.pathsep.join(p for p in sys.path if p)
+    runs: dict[str, dict] = {}
+    for label, seed in (("interpreter-hashseed-0", "0"), ("interpreter-hashseed-1", "1"), ("interpreter-hashseed-random", "random")):
+        envv["PYTHONHASHSEED"] = seed
+        arg = {"mode": "gen", "tmp": ctx.tmp, "app_id": f"c18gen{seed}", "workflows": wids, "n": n}
+        p = subprocess.run([sys.executable, "-m", "harness.c18_child", json.dumps(arg)], capture_output=True, text=True, env=envv, timeout=120)
+        if p.returncode != 0 or not p.stdout.strip():
+            raise RuntimeError("fresh interpreter failed: " + (p.stderr or p.stdout)[-400:])
+        runs[label] = json.loads(p.stdout.strip().splitlines()[-1])["values"]
+    bad = None
+    for w in wids:
+        for op in ("random", "uuid"):
+            for k in range(n):
+                ctx.count()
+                vals = {lab: r[w][op][k] for lab, r in runs.items()}
+                ctx.distinct(("gen", w, op, k))
+                if len(set(vals.values())) != 1 and bad is None:
+                    bad = (w, op, k + 1, vals)
+    if bad:
+        w, op, k, vals = bad
+        ctx.report(f"generated-value-differs-between-processes:{op}",
+                   f"two executions of workflow {w} that both generate {op} number {k} (neither finds it recorded: a recovery re-run in another process racing the original) obtain different values: {vals}",
+                   {"family": "generator-across-processes", "workflow": w, "op": op, "n": k, "values": vals})
+    ctx.obligation("the real generator of random()/uuid() is a function of (workflow, op, sequence) in every interpreter (the model's g)", bad is None,
+                   "" if bad is None else f"{bad}")
+    ctx.notes["generator_across_processes"] = {"workflows": len(wids), "values_per_op": n, "interpreters": len(runs)}
+
+
 def run(ctx: Ctx) -> None:
     lean_stage(ctx, None, THEOREMS)
+    generator_across_processes(ctx)
     clock_ok = P.install_clock()
     ctx.notes["clock_patch"] = clock_ok
     drv = LeanDriver()
